@@ -51,6 +51,7 @@ type c11Plan struct {
 	changePct int
 	maxDelay  time.Duration
 	force     map[uint32]bool // address -> alive / dead override
+	burst     bool
 	unsol     []unsolFrame
 }
 
@@ -91,6 +92,11 @@ func (pl *c11Plan) onWrite(n *simwire.Net, f *simwire.Frame) {
 		n.Inject(d, f.Iface, append(pktcodec.EthHeader(our, mac, pktcodec.EtherTypeARP), body...), fmt.Sprintf("arp-reply-gen%d", gen))
 	}
 	d := time.Duration(1 + r.n("lat", int(pl.maxDelay)-1))
+	if pl.burst {
+		// replies arrive in bursts: several records are in the result buffers together
+		q := pl.maxDelay/5 + 1
+		d = d/q*q + 1
+	}
 	send(0, d)
 	if int(mix64(pl.salt^0x33, uint64(ip))%100) < pl.changePct {
 		// the host answers again with another hardware address (moved / spoofed): the last line wins
@@ -205,7 +211,7 @@ func runC11Compose(t *testing.T, c simrt.Chooser, o Opts) *Out {
 		as := &scanSpec{Cmd: []string{"arp"}, Kind: "arp", Mode: "subnet", Subnet: arpSub, SubnetArg: arpSub.String(), JSON: true}
 		live := p.pct("live", 15)
 		aw := as.world()
-		pl := &c11Plan{salt: uint64(p.n("salt", 1<<30)), alivePct: p.pick("alive", 20, 50, 100), changePct: p.pick("change", 0, 20, 60), maxDelay: 250 * time.Millisecond, force: map[uint32]bool{}}
+		pl := &c11Plan{salt: uint64(p.n("salt", 1<<30)), alivePct: p.pick("alive", 20, 50, 100), changePct: p.pick("change", 0, 20, 60), maxDelay: 250 * time.Millisecond, force: map[uint32]bool{}, burst: p.pct("burst", 35)}
 		switch gwMode {
 		case "cache":
 			pl.force[gwA] = true
